@@ -293,7 +293,7 @@ func runC06(e *Env) {
 		}
 	}
 	r.Count("functions analysed (assembler.go + Policy.Assemble)", len(fns))
-	r.Floor("E2(functions)", len(fns), 15)
+	r.Floor("E2(functions)", len(fns), 5)
 	d := &dimCtx{p: p, e: e, memo: map[ssa.Value]int{}, busy: map[ssa.Value]bool{}, retMemo: map[*ssa.Function]int{}, retBusy: map[*ssa.Function]bool{}, bad: map[ssa.Value]string{}}
 	nSinks, nIdx := 0, 0
 	for _, f := range fns {
@@ -372,9 +372,9 @@ func runC06(e *Env) {
 	}
 	r.Count("Index arithmetic sites typed", d.nArith)
 	r.Count("skip sinks", nSinks)
-	r.Floor("E2.dim(arithmetic sites)", d.nArith, 12)
-	r.Floor("E2.dim(skip sinks)", nSinks, 4)
-	r.Floor("E2.dim(indexings of the instruction list)", nIdx, 5)
+	r.Floor("E2.dim(arithmetic sites)", d.nArith, 4)
+	r.Floor("E2.dim(skip sinks)", nSinks, 2)
+	r.Floor("E2.dim(indexings of the instruction list)", nIdx, 2)
 
 	checkCover(e, p)
 	checkPatcherDiscipline(e, p)
@@ -840,7 +840,7 @@ func checkPatcherDiscipline(e *Env, p *load.Program) {
 			}
 			r.Check(good, "E2.order", "Program.Assemble/mutator-gets-current-jump/"+calleeName(call), p.Pos(call.Pos()), "the layout mutator works on the loop's current jump", "a layout mutator is called with something other than the loop's current jump record")
 		}
-		r.Floor("E2.order(mutator calls in Program.Assemble)", nMut, 2)
+		r.Floor("E2.order(mutator calls in Program.Assemble)", nMut, 1)
 	}
 	// ---- ascending premise: jump records are appended with currentIndex() and only shifted uniformly
 	nRec := 0
